@@ -1200,7 +1200,7 @@ fn main() {
     driver::main(CheckDef {
         prop: "C10",
         level: "model_checking",
-        rule: "E1: every SC interleaving (pb-bounded; 1 registry shard) of updater threads (increment / absolute / set / record through real handles) with a flusher thread driving the real State::flush + PayloadWriter, one initial and three final sequential flushes; every payload parsed by an independent DogStatsD parser; oracle: delta conservation, per-flush upper bound, zero discipline, most-recent gauge, histogram exactly-once, timestamp per documented mode; E3: every sequence (depth 5 quick / 7 thorough) over {flush, ci.increment(3), ci.increment(0), ci.increment(u64::MAX - 7), ca.absolute(next), a second counter of the same name with a label, gau.set, gau.increment, gau.decrement, his.record, 70 records at once} + 2 final flushes, sequentially, against an exact reference model of what each flush must send; E4: transports {unix stream, unixgram, udp} x modes x prefix/labels/distribution configurations through the real forwarder thread into real sockets (framing, one message per datagram/frame, timestamp), and a fault history on the stream transport (agent stalls, a payload larger than the socket buffer is cut short by the write timeout, agent resumes: every stream received is whole well-formed frames), and a flush interval of 1 ms against 170 metrics updated in bursts (everything adds up at the agent); distinct = distinct send sequences / received message sets",
+        rule: "E1: every SC interleaving (pb-bounded; 1 registry shard) of updater threads (increment / absolute / set / record through real handles) with a flusher thread driving the real State::flush + PayloadWriter, one initial and three final sequential flushes; every payload parsed by an independent DogStatsD parser; oracle: delta conservation, per-flush upper bound, zero discipline, most-recent gauge, histogram exactly-once, timestamp per documented mode; E3: every sequence (depth 5 quick / 7 thorough) over {flush, ci.increment(3), ci.increment(0), ci.increment(u64::MAX - 7), ca.absolute(next), a second counter of the same name with a label, gau.set, gau.increment, gau.decrement, his.record, 70 records at once} + 2 final flushes, sequentially, against an exact reference model of what each flush must send; E4: transports {unix stream, unixgram, udp} x modes x prefix/labels/distribution configurations through the real forwarder thread into real sockets (framing, one message per datagram/frame, timestamp), and a fault history on the stream transport (agent stalls, a payload larger than the socket buffer is cut short by the write timeout, agent resumes: every stream received is whole well-formed frames), and a flush interval of 1 ms against 170 metrics updated in bursts (everything adds up at the agent); distinct = distinct send sequences / received message sets; E3 many keys: 10 keys of every kind (two of them in the exporter's telemetry namespace) written and flushed 3 times on 8 fresh exporters for 3 prefix / global-label configurations: per full wire name the counter deltas add up to the increments, histogram values arrive once, nothing arrives under any other name",
         assumptions: &["E1: sequential consistency; the flush is driven synchronously (Driver::flush_once) instead of by the sleeping forwarder thread", "E4: the forwarder thread's flush cadence is timing-driven (40 ms); only framing/content/timestamps are judged there, with a 20 s timeout reported as a violation of 'the agent socket receives these messages'"],
         parts,
         run,
